@@ -310,7 +310,40 @@ def i6(rep, w):
     if not probes:
         # a look-up that probes through a helper of the table
         probes = {bi for bi, t in f.calls() if (callee_name(t) or '').startswith(SSMOD + '::') and any(callee_name(t2) == SSMOD + '::find_index' for _, t2 in (w.fns[callee_name(t)].calls() if callee_name(t) in w.fns else []))}
-    r.check(bool(probes) and c01.all_paths_hit(f, None, probes), 'ObjStringStore::get: every path probes the table',
+    # the one early answer that needs no summary to be kept exact: an empty table holds nothing (the edge on which the entry count, or the
+    # length of the entry vector, compares equal to zero)
+    empty_edges = set()
+    org = origins(f)
+    for bi in f.normal_blocks():
+        t = f.blocks[bi]['t']
+        if t['t'] != 'switch' or op_place(t['d']) is None:
+            continue
+        dl = op_place(t['d'])['l']
+        for s_ in f.blocks[bi]['s']:
+            rr = s_.get('r', {})
+            if (s_.get('d') or {}).get('l') == dl and rr.get('rv') == 'bin' and rr['op'] in ('Eq', 'Ne'):
+                ka, kb = op_const(rr['a']), op_const(rr['b'])
+                other = op_place(rr['b']) if ka is not None else op_place(rr['a'])
+                k = ka if ka is not None else kb
+                if k is not None and k.get('v') == 0 and other is not None:
+                    from c16 import operand_fields
+                    flds = operand_fields(f, org, {'c': other}) | {e.get('n') for e in other.get('p', []) if isinstance(e, dict)}
+                    qs = org.get(other['l'], ())
+                    plain = not any('#bin' in q[1:] for q in qs)       # the count itself, not something computed from it
+                    is_len = bool(qs) and all(q[0][0] == 'call' and strip_generics(q[0][2]).rsplit('::', 1)[-1] in ('len',) and 'entries' in operand_fields(f, org, f.blocks[q[0][1]]['t']['args'][0]) for q in qs)
+                    if plain and ((flds & {'size'} and not (flds - {'size', None})) or is_len):
+                        zero = [cb for v, cb in t['cases'] if v == 0]
+                        edge = t['else'] if rr['op'] == 'Eq' else (zero[0] if zero else None)
+                        if edge is not None:
+                            empty_edges.add(edge)
+        # `if self.entries.is_empty()` / a len()-like predicate
+    for bi, t in f.calls():
+        if strip_generics(callee_name(t) or '').rsplit('::', 1)[-1] == 'is_empty':
+            b = t.get('to')
+            tt = f.blocks[b]['t'] if b is not None else None
+            if tt and tt['t'] == 'switch':
+                empty_edges.add(tt['else'])
+    r.check(bool(probes) and c01.all_paths_hit(f, None, probes | empty_edges), 'ObjStringStore::get: every path probes the table',
             'ObjStringStore::get can answer without probing the table (a filter in front of find_index): an answer "not stored" that rests on a summary of what was '
             'inserted lets a second object with the same text into the table', f.loc())
 
